@@ -180,9 +180,13 @@ class Run:
         brief = {k: v for k, v in cov.items() if isinstance(v, (int, float, bool))}
         print(f"[{self.pid}] tier={self.tier} seed={self.seed} wall={ev['wall_s']}s violations={len(self.violations)} "
               f"known={len(self.known_hits)} {brief}", flush=True)
+        # a run that found (replay-confirmed) violations reports them even if a vacuity guard or a secondary tool
+        # error fired on top (those are usually consequences of the same breakage)
+        if self.violations:
+            return 1
         if self.tool_errors:
             return 2
-        return 1 if self.violations else 0
+        return 0
 
 
 # ---------------------------------------------------------------------
